@@ -35,13 +35,20 @@ Record claims := mkClaims {
   c_iss : string; c_sub : string; c_aud : list string; c_iat : Z; c_exp : Z
 }.
 
-Inductive subcheck := SubIsIssuer | SubAny.
+(* JWTProfileVerifier.CheckSubject: the default op.SubjectIsIssuer; a caller-supplied check
+   (op.SubjectCheck(f) or the exported field) that accepts everything / accepts exactly one
+   subject; or NO check at all (nil: op.SubjectCheck(nil), or a struct literal that leaves the
+   field out) - then VerifyJWTAssertion calls a nil func and panics once it gets there:
+   nothing is ever accepted by such a verifier *)
+Inductive subcheck := SubIsIssuer | SubAny | SubOnly (s : string) | SubNil.
 
 (* which public constructor built the verifier: op.NewJWTProfileVerifier (keys from
    storage) or op.NewJWTProfileVerifierKeySet (with a key set that looks the key up in the
    same storage under the assertion's issuer).  Both take (issuer, maxAgeIAT, offset,
    options) with the same meaning: no function below consults [v_ctor]. *)
-Inductive ctor := CtorStorage | CtorKeySet.
+Inductive ctor := CtorStorage | CtorKeySet | CtorLiteral.
+(* CtorLiteral: &op.JWTProfileVerifier{Verifier: oidc.Verifier{Issuer, MaxAgeIAT, Offset},
+   Storage: ..., CheckSubject: ...} - all these fields are exported *)
 
 Record vcfg := mkV {
   v_issuer : string; v_max_age : Z; v_offset : Z; v_sub : subcheck; v_ctor : ctor
@@ -62,10 +69,12 @@ Definition check_issued_at (now max_age offset iat : Z) : option err :=
   else if Z.ltb (iat * second) (round_s (now - max_age)) then Some EIatOld
   else None.
 
-Definition check_subject (s : subcheck) (c : claims) : bool :=
+Definition check_subject (s : subcheck) (c : claims) : option err :=
   match s with
-  | SubIsIssuer => String.eqb (c_iss c) (c_sub c)
-  | SubAny => true
+  | SubIsIssuer => if String.eqb (c_iss c) (c_sub c) then None else Some EOther
+  | SubAny => None
+  | SubOnly x => if String.eqb (c_sub c) x then None else Some EOther
+  | SubNil => Some EPanicked
   end.
 
 Definition clienttable := list (string * string).   (* client id -> auth method *)
@@ -119,11 +128,13 @@ Section Assertion.
         else match check_issued_at now (v_max_age v) (v_offset v) (c_iat c) with
              | Some e => Err e
              | None =>
-                 if negb (check_subject (v_sub v) c) then Err EOther
-                 else match check_signature verify t (c_iss c) d with
-                      | Some e => Err e
-                      | None => Ok c
-                      end
+                 match check_subject (v_sub v) c with
+                 | Some e => Err e
+                 | None => match check_signature verify t (c_iss c) d with
+                           | Some e => Err e
+                           | None => Ok c
+                           end
+                 end
              end
     end.
 
